@@ -72,3 +72,103 @@ def corrupt(rng, s):
     j = rng.randrange(len(s))
     l = list(s); l[i], l[j] = l[j], l[i]
     return "".join(l)
+
+# ---------------------------------------------------------------------------------------------
+# The documented grammar as an executable spec (written from the property texts / README, not from parser.rs):
+# protocol form of the intended tree, and the minimal-parenthesis rendering by precedence and associativity.
+from ..core import hx
+
+def lit_proto(text):
+    if text in ("true", "True"): return "b(1)"
+    if text in ("false", "False"): return "b(0)"
+    if text[0] in "'\"": return "s(%s)" % hx(text[1:-1])
+    if "." in text:
+        a, b = text.split(".")
+        return "n(0,%x,%d)" % (int(a + b), len(b))
+    return "n(0,%x,0)" % int(text)
+
+def to_proto(t):
+    k = t[0]
+    if k == "lit": return lit_proto(t[1])
+    if k == "ref": return "R(%s)" % hx(t[1])
+    if k == "un": return "U(%s,%s)" % (hx(t[1]), to_proto(t[2]))
+    if k == "bin": return "B(%s,%s,%s)" % (hx(t[1]), to_proto(t[2]), to_proto(t[3]))
+    if k == "nbin": return "U(%s,B(%s,%s,%s))" % (hx("not"), hx(t[1]), to_proto(t[2]), to_proto(t[3]))
+    if k == "post": return "P(%s,%s)" % (to_proto(t[1]), hx(t[2]))
+    if k == "tern": return "T(%s,%s,%s)" % (to_proto(t[1]), to_proto(t[2]), to_proto(t[3]))
+    if k == "call": return "F(%s)" % ";".join([hx(t[1])] + [to_proto(a) for a in t[2]])
+    if k == "list": return "L(%s)" % ";".join(to_proto(a) for a in t[1])
+    if k == "map": return "M(%s)" % ";".join(to_proto(a) + "=" + to_proto(b) for a, b in t[1])
+    raise ValueError(k)
+
+def stmts_proto(ts):
+    return to_proto(ts[0]) if len(ts) == 1 else "S(%s)" % ";".join(to_proto(t) for t in ts)
+
+def prec_table():
+    infix = table()[0]
+    return {n: (p, right) for n, p, setter, right in infix}
+
+def infix_like(t):
+    """(op, left, right) for `x OP y`, `x not OP y` and `not (x OP y)` (the same tree as `x not OP y`)"""
+    if t[0] in ("bin", "nbin"): return (t[1], t[2], t[3])
+    if t[0] == "un" and t[1] == "not" and t[2][0] == "bin": return (t[2][1], t[2][2], t[2][3])
+    return None
+
+def must_paren(c, n, pos, PT):
+    """does child c of node n (at position pos) need parentheses, by the documented rules"""
+    nk = n[0]
+    n_inf = nk in ("bin", "nbin")
+    if c[0] == "tern" and (n_inf or nk in ("un", "post") or (nk == "tern" and pos == "cond")):
+        return True
+    c_inf = infix_like(c) is not None and c[0] != "un"      # rendered infix
+    c_not_prefixed = c[0] == "un"                              # rendered with a prefix operator in front
+    if nk in ("un", "post") and infix_like(c) is not None and c[0] != "un":
+        return True
+    if n_inf:
+        po, right_o = PT[n[1]]
+        if pos == "left":
+            node = c
+            while node[0] in ("bin", "nbin"):
+                px, right_x = PT[node[1]]
+                if not (px > po or (px == po and not right_x)):
+                    return True
+                node = node[3]
+        elif pos == "right":
+            node = c
+            while node[0] in ("bin", "nbin"):
+                py, _ = PT[node[1]]
+                if not (py > po or (py == po and right_o)):
+                    return True
+                node = node[2]
+    if nk == "post":
+        if c[0] == "post": return True
+        if c[0] == "un" and c[2][0] != "post": return True
+    return False
+
+def render_min(t, PT=None, rng=None, extra=0.0, spans=None, base=0):
+    """minimal parentheses (plus redundant ones with probability `extra`); returns text"""
+    PT = PT or prec_table()
+    def sub(c, n, pos):
+        s = render_min(c, PT, rng, extra)
+        need = must_paren(c, n, pos, PT)
+        k = (1 if need else 0) + (rng.choice([1, 1, 2]) if (rng is not None and rng.random() < extra) else 0)
+        return "(" * k + s + ")" * k
+    k = t[0]
+    if k in ("lit", "ref"): return t[1]
+    if k == "un": return t[1] + " " + sub(t[2], t, "operand")
+    if k == "bin": return sub(t[2], t, "left") + " " + t[1] + " " + sub(t[3], t, "right")
+    if k == "nbin": return sub(t[2], t, "left") + " not " + t[1] + " " + sub(t[3], t, "right")
+    if k == "post": return sub(t[1], t, "operand") + " " + t[2]
+    if k == "tern": return sub(t[1], t, "cond") + " ? " + sub(t[2], t, "then") + " : " + sub(t[3], t, "else")
+    if k == "call": return t[1] + "(" + ", ".join(sub(a, t, "arg") for a in t[2]) + ")"
+    if k == "list": return "[" + ", ".join(sub(a, t, "elem") for a in t[1]) + "]"
+    if k == "map": return "{" + ", ".join(sub(a, t, "key") + " : " + sub(b, t, "val") for a, b in t[1]) + "}"
+    raise ValueError(k)
+
+def valid_tree(t):
+    """trees the documented grammar can express: `un not` over a bare `bin` is the same tree as nbin - fine;
+       names must not be operator words (guaranteed by NAMES)"""
+    return True
+
+def gen_stmts(rng, depth=4, nmax=3):
+    return [gen_ast(rng, rng.randint(1, depth)) for _ in range(rng.choice([1, 1, 1, 2, nmax]))]
